@@ -333,6 +333,16 @@ def component_names(ctx) -> None:
         ctx.check(bool(defs) and all(dotted_end(d) for d in defs), 'C18.components', load, f'the "already absolute" test compares against the package prefix *including the dot* (`{core.src(arg)}` = {[core.src(d) for d in defs]})', c, key='load:prefix-dot')
 
 
+def level_key(ctx) -> None:
+    """An explicit level key is always validated: Level.__init__ converts whatever is not None through the level's Key type
+    (0, '' and other falsy spellings are *invalid keys*, not "no key" - they must be refused, never resolved to the latest)."""
+    prog = ctx.prog
+    init = prog.func(f'{C05.DIRECTORY}:Level.__init__')
+    shared.stmt_under(ctx, 'C18.keys', init, 'key = self.Key(key)', [('key is not None', True)], 'every given key goes through the key constructor', 'Level.__init__:convert', inlined=False, siblings=False)
+    st = [a for a in core.walk_local(init.node) if isinstance(a, (ast.Assign, ast.AnnAssign)) and core.src(a.target if isinstance(a, ast.AnnAssign) else a.targets[0]) == 'self._key']
+    ctx.check(len(st) == 1 and core.src(st[0].value) == 'key' and not cfg.cguards(st[0], init.node), 'C18.keys', init, 'and is stored as converted', st[0] if st else init.node, key='Level.__init__:store')
+
+
 def install_guard(ctx) -> None:
     """"already installed" is decided by the *whole* manifest read back from the target (name, version, package and module map):
     a different build under the same name/version must replace the stale tree."""
@@ -344,7 +354,16 @@ def install_guard(ctx) -> None:
         g = cfg.cguards(r, un.node)
         ok = g in ([('Manifest.read(path) == self.manifest', True)], [('self.manifest == Manifest.read(path)', True)])
         ctx.check(ok, 'C18.package', un, f'the existing installation is kept only when its manifest equals the package manifest as a whole (guards {g})', r, key='install:same-manifest')
+    un0 = prog.func(f'{DIST}:Package.install').nested('uninstalled')
+    hs = [h for h in ast.walk(un0.node) if isinstance(h, ast.ExceptHandler)]
+    ctx.check(len(hs) == 1 and core.src(hs[0].type) == 'forml.InvalidError' and not any(isinstance(x, ast.Return) for x in ast.walk(hs[0])), 'C18.package', un0, 'an unreadable manifest at the target only falls through to the prune (no handler returns early: whatever is there is removed before the new content lands)', hs[0] if hs else un0.node, key='install:handlers')
+    rt = [r for r in core.walk_local(un0.node) if isinstance(r, ast.Return) and core.is_const(r.value, True)]
+    g0 = cfg.CFG(un0.node)
+    prune = [st for st in g0.statements() if isinstance(st, ast.If) and core.src(st.test) == 'path.exists()']
+    ctx.check(len(rt) == 1 and len(prune) == 1 and g0.dominates(prune[0], rt[0]), 'C18.package', un0, 'the "go ahead and install" answer is given only after the existing content was checked and pruned', rt[0] if rt else un0.node, key='install:prune-first')
     inst = prog.func(f'{DIST}:Package.install')
+    ct = [c for c in core.calls_in(inst.node) if core.call_tail(c) == 'copytree']
+    ctx.check(all(not c.keywords and [core.src(a) for a in c.args] == ['self.path', 'path'] for c in ct) and len(ct) == 1, 'C18.package', inst, 'a directory package is copied into a fresh location (no merging into existing content)', ct[0] if ct else inst.node, key='install:copytree')
     ret = [r for r in inst.body if isinstance(r, ast.Return)]
     ctx.check(len(ret) == 1 and core.src(ret[0].value) == '_body.Artifact(path, self.manifest.package, **self.manifest.modules)', 'C18.package', inst, 'the artifact is described by the package\'s own manifest (package and module map)', inst.node, key='install:artifact')
 
@@ -373,6 +392,7 @@ def run(ctx) -> None:
     C05.gap_free(ctx)
     C05.key_paths(ctx)
     install_guard(ctx)
+    level_key(ctx)
     key_gate(ctx)
     package_content(ctx)
     component_names(ctx)
